@@ -193,6 +193,8 @@ package group
 //@   ensures still-locked: held(g.mu)
 //@   -- C10: an existing lock is never replaced or lifted here
 //@   ensures keeps-lock: old(g.locked) != nil ==> same(g.locked, old(g.locked))
+//@   -- C10: an autolock group is left locked unless an operator was found among its members (also when it has no members at all)
+//@   proves relocks: g.description.Autolock ==> g.locked != nil || callresult("Contains[[]string string]", 1)
 //@   -- C10: it locks only groups configured with autolock
 //@   ensures only-autolock: old(g.locked) == nil && g.locked != nil ==> g.description.Autolock
 //@
